@@ -121,6 +121,7 @@ func (g *G) kvWrite(p KVParams) prog.Op {
 	op := prog.Op{K: "put", B: b, Key: k, Val: v}
 	if g.Long && r.Bool(0.3) {
 		op.Big = r.Range(1025, 2600)
+		op.Zero = r.Bool(0.3)
 	}
 	if p.TTL {
 		op.TTL = TTLs[r.Intn(len(TTLs))]
@@ -237,7 +238,7 @@ func KV(r *core.Rng, p KVParams) *prog.Program {
 	mega := p.Mega > 0 && r.Bool(p.Mega)
 	if mega {
 		// few transactions, a few of them with a value of 1-2 MiB
-		pg.Cfg.SegSize = 4 << 20
+		pg.Cfg.SegSize = []int64{2 << 20, 2 << 20, 3 << 20, 4 << 20}[r.Intn(4)]
 		g.Long = false
 		g.Keys = subset(r, KVKeys, 2, 2)
 		p.Buckets, p.Views = 1, false
@@ -267,6 +268,9 @@ func KV(r *core.Rng, p KVParams) *prog.Program {
 		if r.Bool(0.4) {
 			nops = r.Range(1, p.MaxOps)
 		}
+		if !mega && r.Bool(0.03) {
+			nops = r.Range(13, 40) // a big transaction (several writes per key)
+		}
 		st := prog.Step{K: prog.STx}
 		for j := 0; j < nops; j++ {
 			st.Ops = append(st.Ops, g.kvWrite(p))
@@ -275,6 +279,7 @@ func KV(r *core.Rng, p KVParams) *prog.Program {
 			for j := range st.Ops {
 				if st.Ops[j].K == "put" || st.Ops[j].K == "putts" {
 					st.Ops[j].Big = (1 << 20) + r.Range(1, 900000)
+					st.Ops[j].Zero = r.Bool(0.4)
 					break
 				}
 			}
@@ -301,6 +306,10 @@ func KV(r *core.Rng, p KVParams) *prog.Program {
 			v := prog.Step{K: prog.SView}
 			for j := r.Range(1, 4); j > 0; j-- {
 				v.Ops = append(v.Ops, g.kvRead(p))
+				if p.TTL && p.Advance && r.Bool(0.15) {
+					// time passes while the read transaction is open
+					v.Ops = append(v.Ops, prog.Op{K: "adv", TS: int64(r.Range(1, 3))})
+				}
 			}
 			pg.Steps = append(pg.Steps, v)
 		}
